@@ -273,7 +273,10 @@ func (cln *Client) Disconnect() {
 	if _, err := cln.svc.writeMessage(msg); err == nil {
 		// Wait until the sender has written everything (room for a whole
 		// buffer means the buffer is empty) or the buffer has been closed.
+		// Like every producer of the outgoing buffer, under wmu.
+		cln.svc.wmu.Lock()
 		cln.svc.out.WriteWait(int(cln.svc.out.size))
+		cln.svc.wmu.Unlock()
 	}
 	cln.svc.stop()
 }
